@@ -378,6 +378,11 @@ def main(factory_mod, factory_name, argv=None):
     rc = 0
     replay_paths = []
     if fresh:
+        bykey = {}
+        for v in fresh:
+            bykey[v["violation"].get("key")] = bykey.get(v["violation"].get("key"), 0) + 1
+        for k, n in sorted(bykey.items(), key=lambda kv: -kv[1])[:40]:
+            print(f"fresh-violation-key {k!r}: {n}x")
         rc = 1
         seen_cls = set()
         for v in sorted(fresh, key=lambda v: v["index"]):
